@@ -211,7 +211,8 @@ def main(argv=None):
                 import math
                 assign[k] = math.atan2(C.parse_model_value(model.get(sn, 0)), C.parse_model_value(model.get(cn, 1)))
         st, failures, ctx = C.run_concrete(cd, assign)
-        short = clause[len(cd.full) + 1:]
+        import re
+        short = re.sub(r"\[\d+\]$", "", clause[len(cd.full) + 1:])
         reproduced = st in ("fail", "error") and (short in failures or o.kind in ("safety", "inv", "lemma") or short.startswith("noexcept") or any(f.startswith("exception") for f in failures))
         if not reproduced:
             # bounded search for a real failing input of the same clause
